@@ -507,6 +507,12 @@ func (fr *frame) binop(x *ssa.BinOp, st *state) {
 		ops := map[token.Token]string{token.ADD: "+", token.SUB: "-", token.MUL: "*", token.QUO: "/", token.LSS: "<", token.LEQ: "<=", token.GTR: ">", token.GEQ: ">="}
 		if op, ok := ops[x.Op]; ok {
 			if x.Op == token.MUL {
+				_, cx := x.X.(*ssa.Const)
+				_, cy := x.Y.(*ssa.Const)
+				if cx || cy {
+					set("(* " + a.S + " " + b.S + ")") // multiplication by a constant stays linear
+					return
+				}
 				set("(fmul " + a.S + " " + b.S + ")")
 				g.declareFun("fmul", "(Real Real) Real")
 				return
